@@ -197,15 +197,25 @@ func H_C14_update() {
 		`{"price":"$10","expr":"${total}","group":"$1"}`,
 		`{"pct":"100%d","fmt":"%s %v"}`,
 		`{"path":"C:\\dir\\1","re":"\\1"}`,
-	}[vxrt.Choice("document", 3)]
+		`{"n":9007199254740993,"d":0.10000000000000000001}`,
+	}[vxrt.Choice("document", 4)]
+	// what the slot held before: another document; the same document in a one-line layout (recorded
+	// by hand or under other options); the same document but for a digit beyond float64 precision
+	old := "{\n \"old\": true\n}"
+	switch vxrt.Choice("previously-stored", 3) {
+	case 1:
+		old = doc
+	case 2:
+		old = "{\n \"d\": 0.1,\n \"n\": 9007199254740992\n}"
+	}
 	standalone := vxrt.Bool("standalone")
 	upd := WithConfig(Dir(dir), Filename("f"), Update(true))
 	ro := WithConfig(Dir(dir), Filename("f"), Update(false))
 	if standalone {
 		path = dir + "/f_1.snap.json"
-		vxWriteFile(path, "{\n \"old\": true\n}")
+		vxWriteFile(path, old)
 	} else {
-		vxWriteFile(path, vxFrame("TestZ - 1", "z")+vxFrame("TestJ - 1", "{\n \"old\": true\n}")+vxFrame("TestY - 1", "y"))
+		vxWriteFile(path, vxFrame("TestZ - 1", "z")+vxFrame("TestJ - 1", old)+vxFrame("TestY - 1", "y"))
 	}
 	call := func(c *Config, t *vxMockT) {
 		if standalone {
@@ -214,6 +224,12 @@ func H_C14_update() {
 			c.MatchJSON(t, doc)
 		}
 	}
+	// the stored text is not the canonical text of the document: without updating, one failure and no write
+	before := vxDumpDir(dir)
+	t0 := vxNewT("TestJ")
+	call(ro, t0)
+	t0.end()
+	vxrt.Assert(len(t0.errors) == 1 && len(t0.logs) == 0 && vxDumpDir(dir) == before, "C02:one-error")
 	tu := vxNewT("TestJ")
 	call(upd, tu)
 	tu.end()
